@@ -23,8 +23,10 @@ LEVEL_TEXT = ("Lean 4 theorems about one pass, for every configuration: idle con
               "or expired connection survives the house-keeping loop; a request gets the first available connection of its origin or a new one; every "
               "connection the pass closes is expired, surplus-idle (idle count above the limit) or evicted for room at the limit. Tied by lock-step "
               "runs on stub connections and by histories of requests / clock advances / server closes on real HTTP/1.1 and HTTP/2 connections.")
-LEVEL_NOTE = ("Trusted: Lean kernel, extractor, stub harness, virtual clock patch. Arming/clearing of the expiry time and the server-closed test "
-              "(idle and readable) are exercised by the scenario runs and their oracles, not by a theorem.")
+LEVEL_NOTE = ("Trusted: Lean kernel, extractor / life-cycle translator, stub harness, virtual clock patch. Arming / clearing of the expiry time and the "
+              "server-closed test (idle and readable) are theorems over the translated gate / _response_closed / has_expired (h1_expiry_exact, "
+              "h2_expiry_exact, *_in_use_never_expires) and composed with the pass (in_use_survives_housekeeping); the steps of the life-cycle "
+              "model that stand for code with suspension points are tied by the event-log lock-step only.")
 TECHNIQUE = "Lean 4 proof (loop invariant of the house-keeping loop) + regenerated surplus expression + lock-step / scenario differential"
 DESIGN_REF = "§5 C09"
 
